@@ -88,6 +88,7 @@ type integEngine struct {
 	maxExecPar  int
 	writing     atomic.Value // string: exec key whose chunk is being delivered
 	limboUsed   int
+	nstages     int
 	runGID      []runRec
 }
 
@@ -234,6 +235,7 @@ func (e *integEngine) installHooks() {
 	scheduler.VerifYield = func(kind string, subj interface{}) {
 		if kind == "stage-start" {
 			gid := curGID()
+			e.pl.ident.Store(gid, subj.(*scheduler.Stage).Name)
 			if e.prof.UseStageStart {
 				c.Yield("stage-start", subj.(*scheduler.Stage).Name, gid)
 			} else {
@@ -246,6 +248,9 @@ func (e *integEngine) installHooks() {
 		case "run-enter":
 			t := subj.(*task.Task)
 			gid := curGID()
+			if _, ok := e.pl.ident.Load(gid); !ok {
+				e.pl.ident.Store(gid, t.Name)
+			}
 			if e.prof.UseRunEnter {
 				c.Yield("run-enter", t.Name, gid)
 			} else {
@@ -346,7 +351,12 @@ func RunIntegWorld(c *Ctl, prof *IntegProfile, w *IntegWorld, res *RunResult) *i
 		}
 	}
 	if len(e.graphs) > 0 {
+		scheduler.VerifPause = simPause
 		e.sd = scheduler.NewScheduler(tr)
+		scheduler.VerifPause = 0
+		for _, g := range w.AllGraphs() {
+			e.nstages += g.CountStages()
+		}
 	}
 	c.onEvent = e.onEvent
 	e.installHooks()
@@ -427,7 +437,7 @@ func (e *integEngine) eligible() []*Park {
 			if plan.DurMS < 0 {
 				continue
 			}
-			if now-info.StartAt >= time.Duration(plan.DurMS)*time.Millisecond {
+			if now-floorTick(info.StartAt) >= time.Duration(plan.DurMS)*time.Millisecond {
 				out = append(out, p)
 			}
 		case "driver":
@@ -461,12 +471,23 @@ func (e *integEngine) eligible() []*Park {
 	return out
 }
 
+func floorTick(t time.Duration) time.Duration { return t - t%simTick }
+
+func ceilTick(t time.Duration) time.Duration {
+	if t%simTick == 0 {
+		return t
+	}
+	return t - t%simTick + simTick
+}
+
+// nextWake: how far to advance the clock when nothing can be released now: to the next instant
+// (on the controller's tick grid) at which a parked process may complete or a deadline expires.
 func (e *integEngine) nextWake() time.Duration {
 	c := e.c
 	now := c.Now()
 	best := time.Duration(0)
 	consider := func(at time.Duration) {
-		d := at - now
+		d := ceilTick(at) - now
 		if d > 0 && (best == 0 || d < best) {
 			best = d
 		}
@@ -478,17 +499,88 @@ func (e *integEngine) nextWake() time.Duration {
 		info := p.Data.(*ExecInfo)
 		plan := e.w.Plan(info.ID)
 		if plan.DurMS > 0 {
-			consider(info.StartAt + time.Duration(plan.DurMS)*time.Millisecond)
+			consider(floorTick(info.StartAt) + time.Duration(plan.DurMS)*time.Millisecond)
 		}
 		if info.HasTimeout {
 			consider(info.Deadline)
 		}
 	}
-	if best == 0 || (e.sd != nil && best > pollPause) {
-		best = pollPause
+	if best == 0 {
+		// nothing known to wait for (a process being killed, a loop that is about to return):
+		// step on the grid, coarser the longer nothing happens
+		best = ceilTick(now+1) - now
+		if idle := now - e.lastRelease; idle > time.Second {
+			best = ceilTick(now+idle/4) - now
+		}
 	}
 	return best
 }
+
+// schedActive: a pipeline driver has been started and has not returned.
+func (e *integEngine) schedActive() bool {
+	for _, d := range e.drivers {
+		if d.Spec.Kind == "pipeline" && d.Released && !d.Returned {
+			return true
+		}
+	}
+	return false
+}
+
+func (e *integEngine) signature() string {
+	var sb strings.Builder
+	for _, p := range e.c.Parked {
+		sb.WriteString(p.Kind)
+		sb.WriteByte(':')
+		sb.WriteString(p.Key)
+		sb.WriteByte(' ')
+	}
+	for _, d := range e.drivers {
+		if d.Returned {
+			sb.WriteString("ret:" + d.Key + " ")
+		}
+	}
+	fmt.Fprintf(&sb, "cr=%d ev=%d", len(e.cancelRets), len(e.execs))
+	return sb.String()
+}
+
+// observe: quiescence, then - while a scheduler is polling - let its loop reach a fixpoint (which
+// stage a pass visits first is Go map order), then return to the controller's tick grid. All of it
+// is one batch of the canonical log.
+func (e *integEngine) observe() {
+	c := e.c
+	c.Quiesce()
+	c.holdBatch = true
+	for round := 0; round < 50; round++ {
+		if e.schedActive() {
+			need := e.nstages + 3
+			sig := e.signature()
+			stable := 0
+			for i := 0; stable < need && i < 400; i++ {
+				c.Advance(simPause)
+				if s2 := e.signature(); s2 != sig {
+					sig, stable = s2, 0
+				} else {
+					stable++
+				}
+			}
+		}
+		now := c.Now()
+		if now%simTick == 0 {
+			break
+		}
+		// back to the controller's tick grid; if anything happened on the way (a killed process
+		// finally died, a deadline expired) the polling loop gets to settle again
+		before := e.reportsSeen()
+		c.Advance(ceilTick(now) - now)
+		if e.reportsSeen() == before || !e.schedActive() {
+			break
+		}
+		c.Advance(simPause / 2) // off the grid, so that the settle above runs once more
+	}
+	c.holdBatch = false
+}
+
+func (e *integEngine) reportsSeen() int { return e.c.Reported }
 
 func (e *integEngine) releasePark(p *Park) {
 	c := e.c
@@ -656,7 +748,7 @@ func (e *integEngine) loop() {
 	c := e.c
 	prof := e.prof
 	for c.Steps = 0; ; c.Steps++ {
-		c.Quiesce()
+		e.observe()
 		if e.finished {
 			break
 		}
@@ -688,7 +780,7 @@ func (e *integEngine) loop() {
 				e.fireFault(faults[0])
 				continue
 			}
-			c.Advance(e.nextWake())
+			c.Sleep(e.nextWake())
 			continue
 		}
 		w := make([]int, 0, len(parks)+2)
@@ -719,7 +811,7 @@ func (e *integEngine) loop() {
 		case k < len(parks):
 			e.releasePark(parks[k])
 		case k == len(parks):
-			c.Advance(e.nextWake())
+			c.Sleep(e.nextWake())
 		default:
 			e.fireFault(faults[0])
 		}
@@ -727,7 +819,7 @@ func (e *integEngine) loop() {
 	if e.finished && prof.CancelAfter {
 		for _, f := range c.ParkedOf("fault-cancel") {
 			e.fireFault(f)
-			c.Quiesce()
+			e.observe()
 		}
 	}
 	// every Cancel call must return (bounded)
@@ -740,10 +832,11 @@ func (e *integEngine) loop() {
 		// release whatever still moves
 		if el := e.eligible(); len(el) > 0 {
 			e.releasePark(el[0])
-			c.Quiesce()
+			e.observe()
 			continue
 		}
-		c.Advance(pollPause)
+		c.Sleep(e.nextWake())
+		e.observe()
 	}
 }
 
